@@ -6,7 +6,7 @@ CONSTANTS
   MaxSched = 100
   OutBatch = 2
   MatchRel <- TMatch
-  RFix = {"ready_unknown", "unsuback_one", "unsub_notifs"}
+  RFix = {"ready_unknown", "unsuback_one", "unsub_notifs", "resume_submap"}
   CIDs = {"c1", "c2", "c3"}
   Topics <- TTopics
   Filters <- TFilters
